@@ -206,6 +206,7 @@ pub fn classify(e: &ErrInfo) -> Vec<Rule> {
 }
 
 /// The kind each rule must produce (C13's fixed taxonomy).
+#[allow(dead_code)]
 pub fn kind_for_rule(r: Rule) -> Option<&'static str> {
     Some(match r {
         Rule::Path => "InvalidURIPath",
@@ -864,6 +865,7 @@ pub struct ExecPolicy {
     pub step_cap: u64,
 }
 
+#[allow(dead_code)]
 pub struct ExecReport {
     pub outs: Vec<ValOut>,
     pub stalled_tasks: Vec<usize>,
